@@ -50,6 +50,19 @@ def run(tier, seed):
     vlib.log(f"crashfuzz {kind} {time.time()-t:.1f}s")
     sc.parse_stats(p.stdout if isinstance(p.stdout, str) else "", stats)
     extra = [dict(ev="crash.stress", scenario="message alphabet (first message / after login) + concurrent xtcp register/close/pre-check", exit=("ok" if kind == "ok" else kind), detail=detail)]
+    # the same alphabet against a real frpc, sent by a scripted server, in a sacrificial process of its own
+    tfc = d / "crashc.ndjson"
+    t = time.time()
+    timed_out = False
+    try:
+        pc = subprocess.run([str(drv), "crashfuzzc", "-out", str(tfc), "-rounds", "1" if tier == "quick" else "3"], capture_output=True, text=True, timeout=1500)
+    except subprocess.TimeoutExpired as ex:
+        timed_out = True
+        pc = subprocess.CompletedProcess([], 124, str(ex.stdout or ""), str(ex.stderr or ""))
+    kindc, detailc = classify(pc, timed_out)
+    vlib.log(f"crashfuzzc {kindc} {time.time()-t:.1f}s")
+    sc.parse_stats(pc.stdout if isinstance(pc.stdout, str) else "", stats)
+    extra.append(dict(ev="crash.stress", scenario="message alphabet sent to a real frpc by a scripted server (login answer / control channel / work connection / visitor connection)", exit=("ok" if kindc == "ok" else kindc), detail=detailc))
     # stress scenarios of the other modules, each in its own sacrificial process
     stress = [("pool", ["pool", "-seed", seed, "-n", 4, "-steps", 8, "-pc", 2, "-maxpool", 1, "-out", d / "s1.ndjson"]),
               ("groups", ["groups", "-seed", seed, "-n", 4, "-steps", 10, "-kind", "tcp", "-out", d / "s2.ndjson"]),
@@ -82,6 +95,8 @@ def run(tier, seed):
         stats["stress"] = stats.get("stress", 0) + 1
         vlib.log(f"stress {name}: {k}")
     with open(tf, "a") as f:
+        if tfc.exists():
+            f.write(tfc.read_text())
         for e in extra:
             f.write(json.dumps(e) + "\n")
     # a crashed crashfuzz leaves no coverage event: the trace spec still checks every case seen so far
@@ -90,13 +105,13 @@ def run(tier, seed):
     v.samples = []
     v.sample({"cases": [e for e in evs if e.get("ev") == "crash.case"][:8], "stress": [e for e in evs if e.get("ev") == "crash.stress"]})
     v.add_cov(evaluations=stats.get("case", 0) + stats.get("stress", 0), distinct_nontrivial=stats.get("case", 0) // 2 + stats.get("stress", 0),
-              rule="message alphabet: 18 message types with boundary classes of their fields (negative / zero / max / huge integers, empty / 9 KB / non-UTF-8 / unknown strings, nil / empty-element / huge / garbage lists) sent as first "
+              rule="message alphabet (frps): 18 message types with boundary classes of their fields (negative / zero / max / huge integers, empty / 9 KB / non-UTF-8 / unknown strings, nil / empty-element / huge / garbage lists) sent as first "
                    "message of 4 connections at a time and on 2 authenticated sessions in parallel, followed after every batch by a liveness probe (fresh login + registration + tunnel connect), plus 2.5 s of concurrent xtcp register / close "
-                   "against pre-check and session requests; 8 stress scenarios of the other modules (gate-scheduled races, name races, floods) each in a sacrificial process whose exit status and stderr are classified; "
+                   "against pre-check and session requests; message alphabet (frpc): the same cases plus server-side ones on the control channel in batches of 6, 8 proxy names x 5 StartWorkConn variants (then garbage / oversized frame / stray messages) as answer to a work connection, 5 answers to visitor connections, 4 login answers; 8 stress scenarios of the other modules (gate-scheduled races, name races, floods) each in a sacrificial process whose exit status and stderr are classified; "
                    "thorough tier builds everything with the race detector; non-trivial = half of the message cases + the stress scenarios",
               driver_stats=stats)
     v.assumptions += ["absence of crashes for field values outside the enumerated classes is not claimed",
-                      "frpc-side: malformed server replies are only exercised through the C14 scripted-server scenario",
+                      "frpc-side: the alphabet is sent by a scripted server to one frpc with tcp / udp / stcp / sudp / xtcp proxies and stcp / sudp / xtcp visitors (TLS and mux off); the client must stay logged in or log in again within 30 s and a tunnelled echo must work after every batch",
                       "a wedge is detected as a sacrificial process that does not finish, or a liveness probe that fails"]
     v.finish()
 
